@@ -120,6 +120,26 @@ func useAsOperands() {
 			try("curve.NewCompressedEdwardsY().SetEdwardsPoint(p)", func() { curve.NewCompressedEdwardsY().SetEdwardsPoint(p) })
 			try("curve.NewMontgomeryPoint().SetEdwards(p)", func() { curve.NewMontgomeryPoint().SetEdwards(p) })
 		}
+		// objects constructed FROM the constants, then re-targeted / overwritten by their owner
+		q := curve.NewEdwardsPoint().Mul(curve.ED25519_BASEPOINT_POINT, scalar.NewFromUint64(77))
+		rq := curve.NewRistrettoPoint().Mul(curve.RISTRETTO_BASEPOINT_POINT, scalar.NewFromUint64(77))
+		try("NewExpandedEdwardsPoint(ED25519_BASEPOINT_POINT).SetEdwardsPoint(Q)", func() {
+			curve.NewExpandedEdwardsPoint(curve.ED25519_BASEPOINT_POINT).SetEdwardsPoint(q)
+		})
+		try("NewExpandedRistrettoPoint(RISTRETTO_BASEPOINT_POINT).SetRistrettoPoint(Q)", func() {
+			curve.NewExpandedRistrettoPoint(curve.RISTRETTO_BASEPOINT_POINT).SetRistrettoPoint(rq)
+		})
+		try("NewEdwardsBasepointTable(ED25519_BASEPOINT_POINT).Basepoint().Neg()", func() {
+			b := curve.NewEdwardsBasepointTable(curve.ED25519_BASEPOINT_POINT).Basepoint()
+			b.Neg(b)
+		})
+		try("ED25519_BASEPOINT_TABLE.Basepoint() expanded and re-targeted", func() {
+			curve.NewExpandedEdwardsPoint(curve.ED25519_BASEPOINT_TABLE.Basepoint()).SetEdwardsPoint(q)
+		})
+		for _, tp := range curve.EIGHT_TORSION {
+			tp := tp
+			try("NewExpandedEdwardsPoint(EIGHT_TORSION[i]).SetEdwardsPoint(Q)", func() { curve.NewExpandedEdwardsPoint(tp).SetEdwardsPoint(q) })
+		}
 		try("curve.NewEdwardsPoint().MulBasepoint(curve.ED25519_BASEPOINT_TABLE, ord)", func() { curve.NewEdwardsPoint().MulBasepoint(curve.ED25519_BASEPOINT_TABLE, ord) })
 		try("curve.NewRistrettoPoint().MulBasepoint(curve.RISTRETTO_BASEPOINT_TABLE, ord)", func() { curve.NewRistrettoPoint().MulBasepoint(curve.RISTRETTO_BASEPOINT_TABLE, ord) })
 		try("curve.NewRistrettoPoint().Mul(curve.RISTRETTO_BASEPOINT_POINT, ord)", func() { curve.NewRistrettoPoint().Mul(curve.RISTRETTO_BASEPOINT_POINT, ord) })
